@@ -8,16 +8,21 @@ TB = ("Coq 8.16.1 kernel; axioms as printed by Print Assumptions (allow-list in 
 
 CHECKS = {
  "C11": dict(
-   text="PARTIAL. Machine-checked for all knowledge bases, predicates, indices and counters: if every clause of kb' is the "
+   text="PROVED under one decidable hypothesis on the program, REFUTED without it (known finding). If every clause of kb' is the "
         "corresponding clause of kb with its variables renamed by a per-clause injective map of names (different clauses may "
-        "share names, also with the query), every clause fetch from kb' returns the renamed fetched clause of kb with the SAME "
-        "fresh variable ids and the same counter (ids are assigned by first occurrence). The second half - from there on the "
-        "engine identifies variables by id and uses names only in Display, so answers, order and output are unchanged - is "
-        "stated (C11_full) and decided on every run by solving each generated program as written and under four renamings "
-        "(every clause uses $X,$Y,..; clauses reuse the query's names; names permuted; fresh names) on the implementation and "
-        "comparing all observations (answers up to renaming of unbound variables, texts and output with variable names masked).",
-   ref="7/C11",
-   technique="Coq proof that clause fetch commutes with injective renaming of names (Properties/C11.v) + renamed-program relation on the implementation + model-vs-implementation correspondence"),
+        "share names, also with the query) and `okkb kb` holds (no join(..) with a variable among its arguments, no variable as "
+        "the functor of a call), then (1) every clause fetch from kb' returns the renamed clause with the same fresh ids and "
+        "counter (C11_clause_fetch); (2) for every query, fuel and world the reference searches over kb and kb' end in the same "
+        "outcome class and give the same number of answers in the same order, pairwise equal except for variable names, with "
+        "the same id counter, flag and schedule (C11_answers: every built-in, unification, arithmetic, cut, not, time covered by "
+        "a relation `sim` that ignores names but knows that an id determines its name); (3) the same for the engine model "
+        "itself, request by request, with no termination hypothesis (C11_next, C11_requests; C11_engine via the refinement "
+        "theorem). The OUTPUT is not related: print writes unbound variables with their names (cex_print), so the statement "
+        "with equal output is false (C11_full_false). Without okkb the property is false: join(..) of an unbound variable "
+        "puts its name into the answer (cex_join; known finding join-of-unbound-variable, shown on the real crate on every "
+        "run). Tie to the code: every generated program is solved as written and under four renamings on the implementation "
+        "and the observations compared (names masked in output), each run also compared with the model.", ref="7/C11",
+   technique="Coq proof of name-independence of reference search and engine model under renaming of clause variables (Properties/C11.v) + renamed-program relation on the implementation + model-vs-implementation correspondence"),
 
  "C06": dict(
    text="PARTIAL. Machine-checked (all function-free terms whose complex terms have an atom functor, all substitutions, all "
